@@ -52,7 +52,11 @@ theorem fs_confined (fs : FS) (cwd : RPath) (dest loc : Str) (ans : UrlAns)
   | none =>
     have ho : o = ⟨fs, [], none⟩ := by simp only [o, PathMap.open, hm]
     rw [ho]
-    exact ⟨fun q h => absurd rfl h, by simp, by intro _ _ _ h; cases h, fun _ => ⟨rfl, rfl, rfl⟩⟩
+    refine ⟨?_, ?_, ?_, ?_⟩
+    · intro q h; exact absurd rfl h
+    · intro p hp; cases hp
+    · intro _ _ _ h; cases h
+    · intro _; exact ⟨rfl, rfl, rfl⟩
   | some rel =>
     have ho : o = openAt fs cwd dest rel := by simp only [o, PathMap.open, hm]
     have hrel : relOk rel = true := by
@@ -87,5 +91,118 @@ theorem fs_confined (fs : FS) (cwd : RPath) (dest loc : Str) (ans : UrlAns)
         by_cases hqf : q = f
         · exact hqf
         · simp [FS.set, hqf] at hq
+
+
+/-- **C05 for the whole life of a writer** as the receiver drives it (`new_object_writer`, `open`, on failure `error`,
+    `write`, then `complete` | `error` | `interrupted`): every filesystem effect (directory created, file created,
+    file truncated, file removed) is on a path strictly below `resolve dest`, the final filesystem differs from the
+    initial one only strictly below it, and an unmappable location gives a failed object with no effect at all. -/
+theorem run_confined (fs : FS) (cwd : RPath) (dest loc : Str) (ans : UrlAns) (oc : Outcome)
+    (hb : builderNew fs cwd dest = true) :
+    let d := resolve cwd dest
+    let r := run false fs cwd dest loc ans oc
+    (∀ e ∈ r.2.1 ++ r.2.2.1, Under d e.path) ∧
+    (∀ q, r.2.2.2 q ≠ fs q → Under d q) ∧
+    (mapLoc loc ans = none → r = (false, [], [], fs)) := by
+  intro d r
+  obtain ⟨h1, h2, h3, h4⟩ := fs_confined fs cwd dest loc ans hb
+  have hr : r = run false fs cwd dest loc ans oc := rfl
+  unfold run at hr
+  simp only [Bool.false_eq_true, if_false] at hr
+  cases hop : (PathMap.open fs cwd dest loc ans).opened with
+  | none =>
+    simp only [hop] at hr
+    rw [hr]
+    refine ⟨?_, h1, ?_⟩
+    · intro e he
+      simp only [openEffects, hop, List.append_nil, List.mem_map] at he
+      obtain ⟨p, hp, hpe⟩ := he
+      rw [← hpe]; exact h2 p hp
+    · intro hm
+      obtain ⟨_, hd, hf⟩ := h4 hm
+      simp [openEffects, hop, hd, hf]
+  | some v =>
+    obtain ⟨dst, f, fresh⟩ := v
+    obtain ⟨_, hu, hfin⟩ := h3 dst f fresh hop
+    obtain ⟨hfe, hfq⟩ := hfin oc
+    simp only [hop] at hr
+    rw [hr]
+    refine ⟨?_, ?_, ?_⟩
+    · intro e he
+      simp only [List.mem_append] at he
+      rcases he with he | he
+      · simp only [openEffects, hop, List.mem_append, List.mem_map, List.mem_singleton] at he
+        rcases he with ⟨p, hp, hpe⟩ | he
+        · rw [← hpe]; exact h2 p hp
+        · rw [he]; cases fresh <;> exact hu
+      · rw [hfe] at he
+        cases oc <;> simp at he <;> (rw [he]; exact hu)
+    · intro q hq
+      by_cases hqo : (PathMap.open fs cwd dest loc ans).fs q = fs q
+      · have : q = f := hfq q (by rw [hqo]; exact hq)
+        rw [this]; exact hu
+      · exact h1 q hqo
+    · intro hm
+      have := (h4 hm).1
+      rw [hop] at this; cases this
+
+/-! ### the defect (D9) on the code before the repair -/
+
+/-- a tiny filesystem: `/`, `/s`, `/s/dest` are directories -/
+def wfs : FS := fun q =>
+  if q = [] ∨ q = [[115]] ∨ q = [[115], [100, 101, 115, 116]] then some .dir else none
+
+/-- `/s/dest` -/
+def wdest : Str := [47, 115, 47, 100, 101, 115, 116]
+
+/-- **Negation witness for the code before the repair (commit ca7fbd1 and earlier).**  With `dest = /s/dest`:
+    * `a:../x` (the `url` crate answers `Ok`, path `../x`) creates `/s/x`;
+    * `//abs`  (RelativeUrlWithoutBase; one '/' stripped, `join` with an absolute operand replaces `dest`) creates `/abs`;
+    * `../x`   (RelativeUrlWithoutBase) creates `/s/x`;
+    none of which lies below `/s/dest`.  Replayed on the real writer: replays/C05-path-D9-witness.json. -/
+theorem fs_confined_false_before_repair :
+    builderNew wfs [] wdest = true ∧
+    ((openV0 wfs [] wdest [97, 58, 46, 46, 47, 120] (.ok [46, 46, 47, 120])).opened.map (·.2.1)
+        = some [[115], [120]]) ∧
+    ((openV0 wfs [] wdest [47, 47, 97, 98, 115] .relativeUrlWithoutBase).opened.map (·.2.1)
+        = some [[97, 98, 115]]) ∧
+    ((openV0 wfs [] wdest [46, 46, 47, 120] .relativeUrlWithoutBase).opened.map (·.2.1)
+        = some [[115], [120]]) ∧
+    ¬ Under (resolve [] wdest) [[115], [120]] ∧ ¬ Under (resolve [] wdest) [[97, 98, 115]] := by
+  refine ⟨by decide, by decide, by decide, by decide, ?_, ?_⟩
+  · rintro ⟨l, _, h⟩
+    have hd : resolve [] wdest = [[115], [100, 101, 115, 116]] := by decide
+    rw [hd] at h
+    simp at h
+  · rintro ⟨l, _, h⟩
+    have hd : resolve [] wdest = [[115], [100, 101, 115, 116]] := by decide
+    rw [hd] at h
+    simp at h
+
+/-- the same three locations on the code as it is now: rejected, nothing touched -/
+theorem witness_locations_rejected_now :
+    mapLoc [97, 58, 46, 46, 47, 120] (.ok [46, 46, 47, 120]) = none ∧
+    mapLoc [47, 47, 97, 98, 115] .relativeUrlWithoutBase = none ∧
+    mapLoc [46, 46, 47, 120] .relativeUrlWithoutBase = none := by decide
+
+/-! ### non-vacuity -/
+
+/-- the hypothesis of `fs_confined` is met and `open` does succeed: `file:///hello` (url path `/hello`) with
+    `dest = /s/dest` creates `/s/dest/hello` -/
+example : builderNew wfs [] wdest = true ∧
+    (PathMap.open wfs [] wdest [102, 105, 108, 101, 58, 47, 47, 47, 104, 101, 108, 108, 111]
+        (.ok [47, 104, 101, 108, 108, 111])).opened
+      = some (wdest ++ [47, 104, 101, 108, 108, 111], [[115], [100, 101, 115, 116], [104, 101, 108, 108, 111]], true) := by
+  decide
+
+/-- `http://h/a/b.txt` : creates the directory `/s/dest/a` and the file `/s/dest/a/b.txt` -/
+example :
+    (PathMap.open wfs [] wdest [] (.ok [47, 97, 47, 98, 46, 116, 120, 116])).dirs = [[[115], [100, 101, 115, 116], [97]]] ∧
+    ((PathMap.open wfs [] wdest [] (.ok [47, 97, 47, 98, 46, 116, 120, 116])).opened.map (·.2.1))
+      = some [[115], [100, 101, 115, 116], [97], [98, 46, 116, 120, 116]] := by
+  decide
+
+/-- `mapLoc` is not constantly `none`, and not constantly `some` -/
+example : mapLoc [] (.ok [47, 104]) = some [104] ∧ mapLoc [] (.ok [47]) = none ∧ mapLoc [] .other = none := by decide
 
 end Flute.Props.C05
